@@ -125,6 +125,13 @@ fn run_case_inner(c: &Case) -> String {
 const ITEM_KINDS: &[u32] = &[0, 1, 2, 3];
 
 fn pick_kinds(rng: &mut Rng, from: &[u32], max: usize) -> Vec<u32> {
+    // mostly short lists; one in five is longer (4..=8 kinds, also from outside `from`): the
+    // report of a failed `any` abbreviates lists of five or more expected tokens
+    if max >= 3 && rng.chance(1, 5) {
+        let n = 4 + rng.below(5);
+        let wide: &[u32] = &[0, 1, 2, 3, 4, 5, 6, 7, 8, 9, 10, 11, 12];
+        return (0..n).map(|i| if i % 2 == 0 { *rng.pick(from) } else { *rng.pick(wide) }).collect();
+    }
     let n = 1 + rng.below(max);
     (0..n).map(|_| *rng.pick(from)).collect()
 }
@@ -250,7 +257,18 @@ pub fn gen_recover(rng: &mut Rng) -> G {
         _ => gen_item(rng, 1),
     });
     let r = G::Recover(rng.below(4) as u8, inner, gen_rec(rng));
-    match rng.below(10) {
+    match rng.below(12) {
+        // an unbounded repetition of a recovering parser: every round must consume something or
+        // fail, whatever the closure remembers from the round before
+        // (C02's precondition: the body consumes whenever it succeeds, so only recover-AFTER
+        // strategies around a non-nullable parser; recover-before may succeed without consuming)
+        10 | 11 => {
+            let ks: &[u32] = &[4, 5, 0, 3];
+            let rec = if rng.chance(1, 2) { Rec::After(*rng.pick(ks)) } else { Rec::AfterAny(pick_kinds(rng, ks, 2)) };
+            let body = G::Recover(rng.below(4) as u8, Box::new(if rng.chance(1, 2) { G::One(0) } else { G::Seq(vec![0, 1]) }), rec);
+            if rng.chance(1, 2) { G::Repeat(rng.below(4) as u8, 0, None, Box::new(body)) }
+            else { G::Repeat(rng.below(4) as u8, 0, None, Box::new(G::Both(Box::new(body), Box::new(G::Maybe(Box::new(G::One(1))))))) }
+        }
         // a second, different recovery on the lexer the first one left recovering (no stabilising
         // parser in between): with or without plain tokens consumed between the two
         8 | 9 => {
@@ -346,7 +364,14 @@ pub fn gen_committed(rng: &mut Rng, depth: usize) -> G {
 }
 
 fn gen_bracket_plain(rng: &mut Rng) -> G {
-    G::Bracket(rng.below(4) as u8, vec![8, 6], Box::new(gen_item(rng, 1)), vec![9, 7], vec![5])
+    // the inner parser may itself recover (a committed position): its recovery token may well be
+    // absent from the text while the bracket can still recover
+    let inner = match rng.below(4) {
+        0 => G::Recover(rng.below(4) as u8, Box::new(gen_item(rng, 1)), gen_rec(rng)),
+        1 => G::Both(Box::new(gen_item(rng, 1)), Box::new(G::Recover(rng.below(4) as u8, Box::new(G::One(0)), gen_rec(rng)))),
+        _ => gen_item(rng, 1),
+    };
+    G::Bracket(rng.below(4) as u8, vec![8, 6], Box::new(inner), vec![9, 7], vec![5])
 }
 
 fn gen_list_plain(rng: &mut Rng) -> G {
@@ -355,7 +380,13 @@ fn gen_list_plain(rng: &mut Rng) -> G {
         let outer = G::List(rng.below(4) as u8, 0, None, Box::new(inner), 5, vec![9]);
         return G::Bracket(rng.below(4) as u8, vec![8], Box::new(outer), vec![9], vec![]);
     }
-    G::List(rng.below(4) as u8, 0, None, Box::new(G::One(0)), 4, vec![5, 9])
+    let item = if rng.chance(1, 3) {
+        // a recovering item (committed position inside the list's own recovery)
+        G::Recover(rng.below(4) as u8, Box::new(G::One(0)), gen_rec(rng))
+    } else {
+        G::One(0)
+    };
+    G::List(rng.below(4) as u8, 0, None, Box::new(item), 4, vec![5, 9])
 }
 
 /// C09: q1; ..; qn; P with wrappers and probes.
